@@ -165,10 +165,10 @@ mod proofs {
             assert!(r.is_ok() == (size <= 8 * N as u64));
             if let Ok(v) = &r {
                 assert!(v.len() as u64 == size);
-                let mut i = 0;
-                while i < v.len() {
-                    assert!(v.get(i) == Some(raw[i / 8] & (0x80 >> (i % 8)) != 0));
-                    i += 1;
+                // every bit (one symbolic position instead of a loop over a symbolic length)
+                let i: usize = kani::any();
+                if i < v.len() {
+                    assert!(v.get(i) == Some(raw[i / 8] & (0x80u8 >> (i % 8)) != 0));
                 }
             }
         } else {
@@ -180,9 +180,9 @@ mod proofs {
         std::mem::forget(t);
     }
 
-    /// bytes lengths 0, 1, 2, 3 one after the other.
+    /// bytes lengths 0, 1, 2, 3 one after the other. (Longest loop: `bit_vec::reverse_bits`, 8.)
     #[kani::proof]
-    #[kani::unwind(26)]
+    #[kani::unwind(10)]
     #[kani::stub(std::backtrace::Backtrace::capture, std::backtrace::Backtrace::disabled)]
     fn bitvec_read_total() {
         bitvec_read_case::<0>();
@@ -315,5 +315,6 @@ mod proofs {
     }
     bitvec_roundtrip!(bitvec_roundtrip_len0_5, 0, 1, 2, 3, 4, 5);
     bitvec_roundtrip!(bitvec_roundtrip_len6_11, 6, 7, 8, 9, 10, 11);
-    bitvec_roundtrip!(bitvec_roundtrip_len12_17, 12, 13, 14, 15, 16, 17);
+    bitvec_roundtrip!(bitvec_roundtrip_len12_14, 12, 13, 14);
+    bitvec_roundtrip!(bitvec_roundtrip_len15_17, 15, 16, 17);
 }
